@@ -161,6 +161,33 @@ def unbounded_model(ctx, seed):
                 {"objval": float(sol.objval), "status": str(sol.status)}, case)
 
 
+def deep_tree_binary(ctx, seed):
+    """a 0/1 program whose branch-and-bound tree has a few thousand nodes (split two integer rows as evenly as possible):
+    every MILP-capable interface must return the same optimum or report that it has none - never an intermediate incumbent"""
+    from rsome import lp as lpm, eco_solver, grb_solver, ort_solver
+    r = np.random.default_rng(seed)
+    n, k = 16, 2
+    A = r.integers(0, 100, (k, n)).astype(float); t = np.floor(A.sum(axis=1) / 2)
+    case = {"deep_tree_seed": seed, "n_binaries": n}
+    vals = {}
+    for name, solver in (('default', None), ('ecos', eco_solver), ('gurobi', grb_solver), ('ortools', ort_solver)):
+        ctx.search_cases += 1; ctx.evaluations += 1
+        try:
+            with C.quiet():
+                m = lpm.Model(); x = m.dvar(n, vtype='B'); y = m.dvar(k)
+                m.min(y.sum()); m.st(y >= 0); m.st(A @ x - t <= y); m.st(t - A @ x <= y)
+                m.solve(display=False) if solver is None else m.solve(solver, display=False)
+            sol = m.solution
+            vals[name] = None if (sol is None or sol.x is None or np.isnan(sol.objval)) else float(sol.objval)
+        except Exception as ex:
+            ctx.hit('interface-raises:' + name + ':' + type(ex).__name__, {"error": str(ex)[:200]}, case)
+    ref = [v for v in vals.values() if v is not None]
+    if ref and max(ref) - min(ref) > 1e-5 * (1 + abs(min(ref))):
+        ctx.hit('interfaces-disagree-on-optimum:deep-tree', {"values": vals}, case)
+    else:
+        ctx.count('deep-tree:agree')
+
+
 def run(ctx):
     # correspondence: the arguments each interface really hands to its solver API (recorded by wrapping the entry points)
     # vs the Lean translation of the compiled program
@@ -181,11 +208,16 @@ def run(ctx):
         one_model(ctx, d, cls2, integer, variant)
     for k in range(ctx.n(12, 120)):
         unbounded_model(ctx, int(ctx.rng.integers(2 ** 31)))
+    for k in range(ctx.n(3, 20)):
+        deep_tree_binary(ctx, int(ctx.rng.integers(2 ** 31)))
 
 
 def replay(rp):
     ctx = C.Ctx('C11', 'quick', 0)
     c = rp['case']
+    if 'deep_tree_seed' in c:
+        deep_tree_binary(ctx, c['deep_tree_seed'])
+        return {"hits": [(h['key'], h['detail']) for h in ctx.hits], "fails": bool(ctx.hits)}
     if 'unbounded_seed' in c:
         unbounded_model(ctx, c['unbounded_seed'])
         return {"hits": [(h['key'], h['detail']) for h in ctx.hits], "fails": bool(ctx.hits)}
